@@ -530,7 +530,12 @@ def RANDBETWEEN(bottom, top):
     if utils.any_is_error((bottom, top)):
         return error.VALUE
 
-    return random.randint(int(bottom), int(top))
+    # the integers of [bottom, top]: int() truncates towards zero, which let
+    # RANDBETWEEN(0.5,1.5) return 0
+    low, high = math.ceil(bottom), math.floor(top)
+    if low > high:
+        return error.NUM
+    return random.randint(low, high)
 
 
 @dispatcher.register_for('INT')
